@@ -12,8 +12,10 @@ real eqlog-runtime/src/toposort.rs and unification.rs interpreted and PrefixTree
      with close() at symbolic positions in between, end in the same closed model.
 Cyclic morphism graphs (answered by the generated code with a panic) are outside the quantifier and assumed away; any
 other panic is a violation.  Counterexamples are API scripts replayed against the real build.
-Known finding F5 (inherited tuples are born old when the morphism arrives after the tuple got old) is reported as such
-for exactly the histories in which a morphism's dom/cod is asserted after a close; all other histories are still checked.
+Known finding F5 (inherited tuples are born old when the morphism arrives after the source tuple got old) is keyed by its
+role: a counterexample is attributed to F5 iff, natively, the final model is closed once rule premises are read from the `own`
+copies of the member relations (inheritance axioms in full) -- i.e. every unsatisfied rule instance relies on an inherited
+tuple.  Each query that hits F5 is repeated with exactly those instances left out (`closed-own`), and that must be unsat.
 """
 import glob, json, os, re, sys, time, shutil
 import pipeline as P
@@ -93,20 +95,25 @@ def run_program(task):
         def closed_search(plan, resume, excl):
             U, k, K, k2 = plan
             try:
-                return P.with_time_limit(left(), W.search, su, U, k, K, "closed", resume=resume, k2=k2, timeout_s=left(), assume_acyclic=True,
-                                         extra_assume=exclude_f5 if excl else None)
+                return P.with_time_limit(left(), W.search, su, U, k, K, "closed-own" if excl else "closed", resume=resume, k2=k2, timeout_s=left(), assume_acyclic=True)
             except (V.Unsupported, MemoryError) as ex:
                 return None, "%s: %s" % (type(ex).__name__, ex)
             except P.Timeout:
                 return None, "timeout"
 
-        def handle(kind, plan, script, info, replay_fn):
+        def own_closed(script):
+            """role of known finding F5: natively, every unsatisfied rule instance relies on an inherited (non-own) member tuple,
+            i.e. the model is closed once premises are read from the own copies (the inheritance axioms are kept in full)"""
+            ok2, obs2 = W.replay(su, sch, harness, name, script, "closed-own", su.rules)
+            return not ok2
+
+        def handle(kind, plan, script, info, replay_fn, pair=False):
             ok, obs = replay_fn(script)
             if not ok:
                 res["inconclusive"].append("%s %s: solver history %s did not reproduce natively (%s)" % (kind, plan, script, obs[:1]))
                 record(kind, plan, "not reproduced", info)
                 return False
-            f5 = is_f5(script) if isinstance(script, list) else any(is_f5(s) for s in script)
+            f5 = all(own_closed(sc) for sc in script) if pair else own_closed(script)
             (res["known"] if f5 else res["violations"]).append({"kind": kind, "plan": plan, "script": script, "observed": obs[:4], "info": info})
             record(kind, plan, "known finding F5" if f5 else "VIOLATION", info)
             return f5
@@ -121,18 +128,37 @@ def run_program(task):
                 if not str(info).startswith("no history") and info != "timeout":
                     res["inconclusive"].append("closed %s: %s" % (plan, info))
                 continue
-            handle("closed", plan, script, info, lambda s: W.replay(su, sch, harness, name, s, "closed", su.rules))
+            f5 = handle("closed", plan, script, info, lambda s: W.replay(su, sch, harness, name, s, "closed", su.rules))
+            if f5:
+                script, info = closed_search(plan + (0,), False, True)
+                if script is None:
+                    record("closed (instances relying on inherited tuples left out)", plan, "unsat" if str(info).startswith("no history") else "undecided: " + str(info)[:200], None)
+                else:
+                    ok, obs = W.replay(su, sch, harness, name, script, "closed-own", su.rules)
+                    if ok:
+                        res["violations"].append({"kind": "closed-own", "plan": plan, "script": script, "observed": obs[:4], "info": info})
+                        record("closed (instances relying on inherited tuples left out)", plan, "VIOLATION", info)
+                    else:
+                        res["inconclusive"].append("closed-own %s: solver history %s did not reproduce natively" % (plan, script))
         for plan in task["resume"]:
             for excl in (False, True):
                 if time.time() > t_end:
                     record("closed-after-early-stop", plan, "skipped: time budget")
                     continue
                 script, info = closed_search(plan, True, excl)
-                tag = "closed-after-early-stop" + (" (F5 histories excluded)" if excl else "")
+                tag = "closed-after-early-stop" + (" (instances relying on inherited tuples left out)" if excl else "")
                 if script is None:
                     record(tag, plan, "unsat" if str(info).startswith("no history") else "undecided: " + str(info)[:200], None)
                     if not str(info).startswith("no history") and info != "timeout":
                         res["inconclusive"].append("%s %s: %s" % (tag, plan, info))
+                    break
+                if excl:
+                    ok, obs = W.replay(su, sch, harness, name, script, "closed-own", su.rules)
+                    if ok:
+                        res["violations"].append({"kind": "closed-own", "plan": plan, "script": script, "observed": obs[:4], "info": info})
+                        record(tag, plan, "VIOLATION", info)
+                    else:
+                        res["inconclusive"].append("%s %s: solver history %s did not reproduce natively" % (tag, plan, script))
                     break
                 f5 = handle(tag, plan, script, info, lambda s: W.replay(su, sch, harness, name, s, "closed", su.rules))
                 if not f5:
@@ -156,7 +182,7 @@ def run_program(task):
                 if found is None:
                     record(tag, plan, "unsat" if isinstance(info, dict) else "undecided: " + str(info)[:200], info if isinstance(info, dict) else None)
                     break
-                f5 = handle(tag, plan, list(found), info, lambda s: SC.replay(su, sch, harness, name, s))
+                f5 = handle(tag, plan, list(found), info, lambda s: SC.replay(su, sch, harness, name, s), pair=True)
                 if not f5:
                     break
     except Exception:
@@ -217,10 +243,10 @@ def main():
     quick = tier == "quick"
     tasks = []
     for name, pr in sorted(progs.items()):
-        heavy = name != "inh"
+        heavy = name == "mset"
         tasks.append({"program": name, "rs": pr["rs"], "eql": pr["eql"], "rules": pr["rules"], "scratch": scratch, "exe": harness.exe,
                       "oneshot": [(2, 3, 3)] if quick else [(2, 3, 3), (2, 4, 3), (2, 5, 3), (3, 4, 3)],
-                      "resume": ([(2, 2, 3, 2)] if heavy else [(2, 3, 3, 2)]) if quick else [(2, 3, 3, 2), (2, 3, 3, 3), (3, 3, 3, 2)],
+                      "resume": ([] if heavy else [(2, 3, 3, 2)]) if quick else [(2, 3, 3, 2), (2, 3, 3, 3), (3, 3, 3, 2)],
                       "selfcomp": [] if quick else [(2, 3, 3), (2, 4, 3)],
                       "timeout": 240 if quick else 2400, "budget": 420 if quick else 7200})
     import multiprocessing as mp
